@@ -1133,7 +1133,38 @@ CALLABLES = {
     "ACls": ("ACls", "alters"),
     "u.inherited_boom": ("inherited_boom", "unsafe"),
     "cobj_plain": ("cobj_plain", "safe"),
+    # safe at their first use, flagged alters_data from then on (the case performs that first use before the call site)
+    "late_fn": ("late_fn", "late"),
+    "u.late": ("late", "late"),
+    "late_obj": ("late_obj", "late"),
+    # C-implemented callables (no recorder: the effect on the data is observed); rejected by name by the overriding
+    # environment, which is the only environment they are used with
+    "bl.append": ("bl.append", "builtin"),
+    "bl['append']": ("bl.append", "builtin"),
+    "(bl|attr('extend'))": ("bl.extend", "builtin"),
+    "bd.clear": ("bd.clear", "builtin"),
+    "bd.update": ("bd.update", "builtin"),
+    "bd.pop": ("bd.pop", "builtin"),
+    "getcwd": ("getcwd", "builtin"),
+    "bs.upper": ("bs.upper", "builtin"),
+    "blen": ("blen", "builtin"),
 }
+BUILTIN_REJECTED_NAMES = ("append", "extend", "clear", "update", "pop", "getcwd", "upper", "len")
+
+# safe calls made before the call site: key -> (template text placed before the path, sources rendered before on the same
+# environment and data).  @U@ = the callable expression (first use of a "late" callable).
+PRELUDES = {
+    "none": ("", []),
+    "method_before": ("{{ u.ping() }}", []),
+    "methods_loop": ("{% for i in [1, 2, 3] %}{{ u.ping() }}{{ u.child.ping(i) }}{% endfor %}", []),
+    "method_in_macro": ("{% macro pq(f) %}{{ f() }}{% endmacro %}{{ pq(u.ping) }}", []),
+    "prior_render": ("", ["{{ u.ping() }}{{ sfn2() }}{{ u.child.ping() }}"]),
+    "prior_render_twice": ("{{ u.ping() }}", ["{{ u.ping() }}", "{% for i in [1, 2] %}{{ u.child.ping() }}{% endfor %}"]),
+    "first_use": ("{{ @U@() }}", []),
+    "first_use_prior_render": ("", ["{{ @U@() }}"]),
+}
+_LATE_PRELUDES = ["first_use", "first_use_prior_render"]
+_PLAIN_PRELUDES = ["none", "method_before", "methods_loop", "method_in_macro", "prior_render", "prior_render_twice"]
 
 ARGS = ["", "1", "1, k=2", "*[1, 2]", "**{'k': 1}", "1, *[2], **{'k': 3}"]
 
@@ -1249,8 +1280,17 @@ _TOPLEVEL_ONLY = {"in_child_block", "in_child_super"}
 _HAS_BLOCK = {"in_block", "in_block_loop", "block_scoped", "self_block"}
 
 
-def build_call_case(env, is_async, ckey, pkey, akey, rkey):
+def build_call_case(env, is_async, ckey, pkey, akey, rkey, prelude="none"):
     pyname, marking = CALLABLES[ckey]
+    if marking == "builtin":
+        env = "override"  # allowed (and really executed, with whatever arguments) under the default policy
+    if marking == "late" and prelude not in _LATE_PRELUDES:
+        prelude = _LATE_PRELUDES[(akey + len(pkey)) % 2]
+    if marking != "late" and prelude in _LATE_PRELUDES:
+        prelude = "none"
+    pre_text, prior = PRELUDES[prelude]
+    pre_text = pre_text.replace("@U@", ckey)
+    prior = [t.replace("@U@", ckey) for t in prior]
     tmpl, levels = CALL_PATHS[pkey]
     args = ARGS[akey]
 
@@ -1272,9 +1312,9 @@ def build_call_case(env, is_async, ckey, pkey, akey, rkey):
         wrap, reached = wrap.replace("@P@", w_), reached and r_
     body = wrap.replace("@P@", path)
     if pkey in _TOPLEVEL_ONLY:
-        src = body.replace("{% block body %}", "{% block body %}{{ sfn('pre') }}").replace("{% endblock %}", "{{ sfn('post') }}{% endblock %}")
+        src = body.replace("{% block body %}", "{% block body %}{{ sfn('pre') }}" + pre_text).replace("{% endblock %}", "{{ sfn('post') }}{% endblock %}")
     else:
-        src = "{{ sfn('pre') }}" + body + "{{ sfn('post') }}"
+        src = "{{ sfn('pre') }}" + pre_text + body + "{{ sfn('post') }}"
     loader = {k: fill(v) for k, v in LOADER_TEMPLATES.items() if _q(k) in src}
     case = {
         "env": env, "async": is_async, "src": src, "loader": loader, "callable": pyname, "marking": marking,
@@ -1282,6 +1322,10 @@ def build_call_case(env, is_async, ckey, pkey, akey, rkey):
     }
     if pkey in CTX_BIND:
         case["ctxbind"] = {CTX_BIND[pkey]: pyname}  # context variable of that name holds the recorder
+    if prior:
+        case["prior"] = prior  # rendered first with the same environment object and the same data
+    if prelude != "none":
+        case["prelude"] = prelude
     return case
 
 
@@ -1296,7 +1340,8 @@ def call_core_cases():
         for c in ck:
             for env, is_async in CALL_ENVS:
                 k += 1
-                yield build_call_case(env, is_async, c, p, k % len(ARGS), rk[(k // 3) % len(rk)] if k % 3 == 0 else "plain")
+                yield build_call_case(env, is_async, c, p, k % len(ARGS), rk[(k // 3) % len(rk)] if k % 3 == 0 else "plain",
+                                      _PLAIN_PRELUDES[(k // 4) % len(_PLAIN_PRELUDES)])
 
 
 def call_full_cases():
@@ -1314,7 +1359,8 @@ def call_full_cases():
                 combos.append((k % len(ARGS), r))
             for a, r in combos:
                 for env, is_async in CALL_ENVS:
-                    case = build_call_case(env, is_async, c, p, a, r)
+                    k += 1
+                    case = build_call_case(env, is_async, c, p, a, r, _PLAIN_PRELUDES[k % len(_PLAIN_PRELUDES)])
                     key = (case["src"], env, is_async)
                     if key in seen:  # wrappers collapse to "plain" for block-defining paths
                         continue
@@ -1329,4 +1375,4 @@ def call_case(draw):
     p = draw(st.sampled_from(sorted(CALL_PATHS)))
     a = draw(st.integers(0, len(ARGS) - 1))
     r = draw(st.sampled_from(sorted(REACH)))
-    return build_call_case(env, is_async, c, p, a, r)
+    return build_call_case(env, is_async, c, p, a, r, draw(st.sampled_from(_PLAIN_PRELUDES)))
